@@ -481,6 +481,144 @@ def mathn_case(case):
     return res
 
 
+def judged_functions():
+    """{name: (class, args)} of the named class=arithmetic and class=math functions (run time, from the help)."""
+    r = R.mlr(["help", "usage-functions-by-class"], env=ENV)
+    judged, others = {}, {}
+    for line in r.out.split("\n"):
+        m = re.match(r"^([a-z_][a-z_0-9]*)\s+\(class=(\S+) #args=([^)]+)\)", line)
+        if not m or SIDE_EFFECT.match(m.group(1)):
+            continue
+        (judged if m.group(2) in ("arithmetic", "math") else others)[m.group(1)] = (m.group(2), m.group(3))
+    return judged, others
+
+
+def _arities(args):
+    if args.strip() == "variadic":
+        return [1, 2, 3]
+    return sorted({int(a) for a in args.split(",") if a.strip().isdigit() and 0 < int(a) <= 4})
+
+
+FUNCABS_VALUES = [("5", "6", "7", "8"), ("0", "0", "0", "0"), ("-3", "2", "1", "4")]
+FUNCABS_SOURCES = ["$nosuch", "@nosuch"]
+
+
+def funcabs_exempt(f, n, sub):
+    """Documented exceptions to 'functions of absent variables evaluate to absent': min/max return the other
+    argument; pow is 'the same as **', an operator (one absent operand returns the other operand)."""
+    if f in ("min", "max"):
+        return len(sub) < n
+    if f == "pow":
+        return len(sub) < n
+    return False
+
+
+def funcabs_case(case):
+    """R-func-abs: a class=arithmetic/math function with absent in ANY non-empty subset of its argument
+    positions (the others being ordinary ints) is absent."""
+    import itertools
+    f, args, labelmap = case["f"], case["args"], case["labelmap"]
+    res = case_result(_h("fa", f, case["tier"]), nontrivial=True, evals=0)
+    cells = []
+    meta = {}
+    for n in _arities(args):
+        for k in range(1, n + 1):
+            for sub in itertools.combinations(range(n), k):
+                for vi, vals in enumerate(FUNCABS_VALUES):
+                    for si, src in enumerate(FUNCABS_SOURCES):
+                        a = [(src if i in sub else vals[i]) for i in range(n)]
+                        cid = f"{n}.{''.join(map(str, sub))}.{vi}.{si}"
+                        cells.append((cid, f"{f}({', '.join(a)})"))
+                        meta[cid] = (n, sub)
+    got = eval_cells(cells, res)
+    nt = []
+    for cid, e in cells:
+        lab, txt = got[cid]
+        k = labelmap.get(lab, lab)
+        n, sub = meta[cid]
+        res["evals"] += 1
+        nt.append(_h("fa", e))
+        if k == "SLOW":
+            res["inconc"] += 1
+            continue
+        if funcabs_exempt(f, n, sub):
+            bump(res, "func_abs_exempt_recorded")
+            continue
+        bump(res, "R-func-abs")
+        if k != "absent":
+            pos = "all" if len(sub) == n else "+".join(str(i + 1) for i in sub)
+            add_violation(res, {"rule": "R-func-abs", "f": f, "arity": n, "absent_at": pos, "got": k},
+                          f"R-func-abs: {e} is {k} {txt!r}; a function of an absent argument must be absent "
+                          "(reference-main-null-data.md)",
+                          {"argv": replay_argv(e), "stdin": INPUT, "env": ENV, "expected": "absent", "got": [k, txt]})
+    res["nontrivial_keys"] = nt
+    return res
+
+
+def funcabs_e2e_case(case):
+    """End to end: `$z = f($a,$b,$c)` over records lacking every subset of the fields creates z only where all
+    the arguments are present."""
+    import itertools
+    funcs = case["funcs"]          # list of (name, arity)
+    res = case_result(_h("fe", case["vals"], case["tier"]), nontrivial=True, evals=0)
+    names = ["a", "b", "c", "d"]
+    vals = dict(zip(names, case["vals"]))
+    recs = []
+    for k in range(0, 5):
+        for present in itertools.combinations(names, k):
+            recs.append([("id", "".join(present) or "none")] + [(nm, vals[nm]) for nm in present])
+    stdin = "".join(",".join(f"{k}={v}" for k, v in r) + "\n" for r in recs)
+    prog = "\n".join(f"$z_{f}_{n} = {f}({', '.join('$' + nm for nm in names[:n])});" for f, n in funcs)
+    # DKVP output: JSON output prints -Inf/NaN bare (log(0), ...), which is not JSON
+    argv = ["--idkvp", "--odkvp", "put", "-f", "prog.mlr"]
+    r = R.mlr(argv, stdin=stdin, env=ENV, files={"prog.mlr": prog})
+    bump(res, "processes")
+    if r.verdict == "slow":
+        res["inconc"] += 1
+        return res
+    if not r.ok:
+        add_violation(res, {"rule": "R-func-abs", "what": "e2e-run-failed"}, f"e2e program fails rc={r.rc}: {r.err[-300:]!r}",
+                      {"argv": argv, "stdin": stdin, "files": {"prog.mlr": prog}, "env": ENV})
+        return res
+    out = [dict(p.split("=", 1) for p in line.split(",") if "=" in p) for line in r.out.split("\n") if line]
+    if len(out) != len(recs):
+        add_violation(res, {"rule": "R-func-abs", "what": "e2e-record-count"}, f"e2e: {len(recs)} records in, {len(out)} out",
+                      {"argv": argv, "stdin": stdin, "files": {"prog.mlr": prog}, "env": ENV, "got": r.out[:1000]})
+        return res
+    nt = []
+    for rec in out:
+        present = set(str(rec.get("id", ""))) if rec.get("id") != "none" else set()
+        for f, n in funcs:
+            key = f"z_{f}_{n}"
+            need = set(names[:n])
+            missing = need - present
+            res["evals"] += 1
+            one = f"$z = {f}({', '.join('$' + nm for nm in names[:n])})"
+            line = ",".join(f"{nm}={vals[nm]}" for nm in names if nm in present) or "id=none"
+            detail = {"argv": ["put", one], "stdin": line + "\n", "env": ENV}
+            if not missing:
+                bump(res, "func-abs-control")
+                if key not in rec:
+                    add_violation(res, {"rule": "assign-control", "f": f, "what": "e2e"},
+                                  f"assign-control: `{one}` with every field present did not create z", detail)
+                continue
+            nt.append(_h("fe", f, n, tuple(sorted(missing)), case["vals"]))
+            sub = tuple(i for i, nm in enumerate(names[:n]) if nm in missing)
+            if funcabs_exempt(f, n, sub):
+                bump(res, "func_abs_exempt_recorded")
+                continue
+            bump(res, "R-func-abs")
+            if key in rec:
+                pos = "all" if len(sub) == n else "+".join(str(i + 1) for i in sub)
+                add_violation(res, {"rule": "R-func-abs", "f": f, "arity": n, "absent_at": pos, "what": "e2e"},
+                              f"R-func-abs: `{one}` on a record lacking {sorted(missing)} created z={rec[key]!r}; the "
+                              "assignment must be skipped", dict(detail, expected="no field z", got=rec[key]))
+    res["nontrivial_keys"] = nt
+    if case.get("sample"):
+        res["sample"] = {"monitor": "u/func-abs-e2e", "program_head": prog.split("\n")[:3], "records": len(recs)}
+    return res
+
+
 def variadic_case(case):
     """min/max at arity 0, 1 and 3: arity 1 is the identity on scalars; arity 3 equals the nested binary fold."""
     f, pool, labelmap = case["f"], case["pool"], case["labelmap"]
@@ -1277,6 +1415,18 @@ def run(chk):
         cases = [{"f": f, "arity": n, "pool": pool, "labelmap": labelmap, "tier": tier, "seed": f"{chk.seed}/un/{f}"}
                  for n, fs in ((2, math2), (3, math3)) for f in fs]
         chk.pmap(mathn_case, cases, label="u math arity 2-3")
+        judged, others = judged_functions()
+        chk.extra["func_abs_functions_judged"] = sorted(judged)
+        chk.pmap(funcabs_case, [{"f": f, "args": a, "labelmap": labelmap, "tier": tier} for f, (c, a) in sorted(judged.items())],
+                 label="u functions of absent arguments")
+        funcs = [(f, n) for f, (c, a) in sorted(judged.items()) for n in _arities(a)]
+        chk.pmap(funcabs_e2e_case, [{"funcs": funcs, "vals": v, "tier": tier, "sample": i == 0}
+                                    for i, v in enumerate(FUNCABS_VALUES)], label="u $z = f(...) on records lacking fields")
+        # the other function classes: recorded for drift only (many of them document/return an error for absent)
+        ocells = [(f"{f}.{n}", f"{f}({', '.join(['$nosuch'] * n)})") for f, (c, a) in sorted(others.items())
+                  if not f.startswith("asserting_") for n in _arities(a) if n <= 3]
+        ogot = eval_cells(ocells)
+        chk.extra["other_classes_all_absent_kinds"] = {cid: labelmap.get(v[0], v[0]) for cid, v in sorted(ogot.items())}
         cases = []
         canon_ids = [o["id"] for o in pool if o["canon"]]
         for f in MINMAX:
@@ -1352,6 +1502,10 @@ def run(chk):
         "bytes and funct operands: only no-crash, commutativity and R-error (bytes) are judged; cells no rule speaks about are "
         "recorded in kind_matrices_canonical for drift detection, not judged",
         "R-math-empty applies the null-data reference's sentence on functions of empty (example: log) to the class=math unary functions",
+        "R-func-abs ('Functions of absent variables evaluate to absent', null-data reference) is judged for the named class=arithmetic "
+        "and class=math functions at every arity and every non-empty subset of absent positions, and end to end as `$z = f(...)` on "
+        "records lacking fields; documented exceptions: min/max return the other argument, pow is 'the same as **' (an operator). The "
+        "other function classes are only recorded (other_classes_all_absent_kinds): most of them return an error for absent",
         "R-twin: .+ .- .* are documented as + - * with integer-preserving overflow and pow as 'same as **', so their kind matrices must coincide",
         "accumulation model: ints and dyadic floats only (sums exact), products kept below 2^50, min/max workloads contain no empty values "
         "(max(empty, number) is judged in the matrix)",
